@@ -11,7 +11,7 @@ CHECKS["C07"] = {
     "rule": "Exhaustive: every string of 0..8 (thorough 0..10) tokens over {'/','.','a','%2e','%2f','%','\\\\'} as request target for URI.Parse "
             "and as CleanPath argument (distinct by construction; tokenisation is unique); non-trivial = a dot token adjacent to a separator token. "
             "Random: targets of up to 64 tokens incl. mixed-case / double / truncated escapes, query and fragment suffixes; non-trivial = contains '.' or an escape; distinct by FNV-64 of the target. "
-            "FS sandbox: every origin-form target of 1..5 (thorough 1..6) tokens plus random ones served by the real FS handler behind the real engine with canary files outside the root.",
+            "FS sandbox: every origin-form target of 1..5 (thorough 1..6) tokens plus random ones served by the real FS handler behind the real engine with canary files outside the root. fs-vhost unit: exhaustive over 16 hostile Host values (.., ., %2e%2e, ..%2f.., a/.., backslash, ports) x all targets of one or two tokens, served through app.NewVHostPathRewriter in front of the FS handler with index pages and listings on; canaries (file content, index.html and a file name) sit in the directory above the root.",
     "assumptions": [
         "Linux build (backslash is an ordinary byte)",
         "targets containing CTL bytes are only checked for containment (URI.parse refuses them and yields '/')",
@@ -59,7 +59,7 @@ CHECKS["C01"] = {
             "bodies 0 B..70 KiB (512 KiB in thorough) centred on 1 KiB/4 KiB/8 KiB/64 KiB boundaries and salted with HTTP look-alikes; Content-Length with leading zeros/identical duplicate, chunked with arbitrary chunk sizes, hex case, leading zeros, declared trailers; "
             "Expect: 100-continue; HTTP/1.0 keep-alive; close on the last request) x segmentation (whole, byte-wise, fixed-size reads, cuts biased to message/chunk boundaries and 4 KiB multiples) x {buffered, streaming} x read buffer {1, 4096, 8192}, served by the real engine over a scripted connection. "
             "Non-trivial = >=2 requests, or chunked, or body >=4 KiB, or a cut strictly inside a body, or a folded/near-miss/mixed-case framing header; distinct by FNV-64 of (stream bytes, config, cuts). "
-            "hostile-near-miss unit: exhaustive over every single-byte replacement at every position of the two framing names (value 5 / chunked) x real framing x placement x body mode.",
+            "hostile-near-miss unit: exhaustive over every single-byte replacement at every position of the two framing names (value 5 / chunked) x real framing x placement x body mode. In streaming cases the echo handler sometimes stops after 0..20000 bytes of each body (the prefix is compared, all requests behind must still be served). loopback unit: the same reference over unix sockets behind the real netpoll transport, netpoll with IdleTimeout(0) (connection returned to the poller after every request) and the standard transport; the last request asks for close, segmentation is only suggested by pauses.",
     "assumptions": [
         "obs-fold continuation lines that contain a colon are outside the generated domain (hertz rejects them with a clean 400, which RFC 7230 §3.2.4 allows)",
         "chunk extensions are not generated (hertz answers 400; C03 covers rejections)",
@@ -83,7 +83,7 @@ CHECKS["C14"] = {
     "level": "exploration",
     "rule": "Streaming mode. rapid: one request (body 0..70 KiB centred on the 8192/8193 prefetch limit, Content-Length or chunked with arbitrary chunk sizes/trailers, optional Expect: 100-continue) x consumption program (cyclic read sizes from {1..65536}, stop after 0 / any byte count / chunk edge +-1 / 8191..8193 / end, or read to EOF and once more) x {pipelined probe, end of stream, peer closes mid-message} x segmentation x read buffer. "
             "Exhaustive unit: small bodies and bodies whose tail looks like a terminating chunk plus a smuggled request x every chunking x every stop point x read size {1,2,64} x {whole, byte-wise, every single cut}. "
-            "Non-trivial = non-empty body, probe follows, and (stop strictly inside the body, or body > 8192, or >= 2 chunks); distinct by FNV-64 of (request bytes, program, cuts).",
+            "Non-trivial = non-empty body, probe follows, and (stop strictly inside the body, or body > 8192, or >= 2 chunks); distinct by FNV-64 of (request bytes, program, cuts). MaxRequestBodySize (in streaming mode the size of the pre-read window) is drawn from {8 MiB, 16, 1000, 8192, 20000}. loopback unit: the same programs over unix sockets behind netpoll, netpoll with IdleTimeout(0) and the standard transport, followed by a probe that asks for close.",
     "assumptions": [
         "closing the connection instead of resynchronising is allowed (as the statement says); a 4xx written after the streamed request's response is not: it means unread body bytes were parsed as a request",
         "for a peer that closes mid-body the stream must report an error other than io.EOF when read to the end",
@@ -177,7 +177,7 @@ CHECKS["C19"] = {
     "level": "exploration",
     "rule": "Connection histories served by the real engine with a recording tracer (server.WithTracer): 0..5 requests, each with an outcome from {ok, handler panic + recovery middleware, malformed header, body too large, peer closes mid-body, hijack, Expect: 100-continue, streamed body partially read, write error injected at the middle of that response}; "
             "end of connection {peer EOF, idle timeout (scripted timeout error), Connection: close}; trace level {disabled, base, detailed}; IdleTimeout non-zero (in-loop keep-alive) or zero (protocol server returns to the poller after each request; re-entered while data is readable); buffered/streaming; optional segmentation. "
-            "exhaustive unit: all histories of <=3 requests x all configurations. Non-trivial = >=2 requests, or a non-ok outcome, or a keep-alive connection ended by the peer/idle timeout; distinct by FNV-64 of the history.",
+            "exhaustive unit: all histories of <=3 requests x all configurations. Non-trivial = >=2 requests, or a non-ok outcome, or a keep-alive connection ended by the peer/idle timeout; distinct by FNV-64 of the history. Every history is preceded by an exchange that ends in an error on a connection of its own (the pooled context it used is the one the history gets); Finish records Stats().Error().",
     "assumptions": [
         "a start/finish pair without request data is accepted only for a connection that sent nothing",
         "for rejected requests (malformed, too large in buffered mode, truncated body) the pair must exist but the data its Finish carries is not asserted",
@@ -218,7 +218,7 @@ CHECKS["C20"] = {
     "level": "exploration",
     "rule": "typed: rapid-generated typed expression trees (Num: literals incl. negatives/fractions, numeric fields of kinds int64/float64/uint8/int32/int, len(), + - * / %, unary minus; Str: literals with escaped quotes, string fields, concatenation; Bool: literals, bool field, !, numeric/string/bool comparisons, && ||, regexp(), in()) of depth <= 4 (thorough <= 6), "
             "each printed three ways (minimal parentheses relying on precedence and left associativity, fully parenthesised, randomly redundant) with random spacing, compiled afresh as the vd tag of a reflect.StructOf type, evaluated on generated field values. Non-trivial = minimal printing differs from full printing and the tree has >= 2 precedence levels; distinct by FNV-64 of (minimal printing, values). "
-            "wild-nopanic: untyped operator soups over the property's alphabet (literals, nil, field refs to nil pointers/slices/maps/interfaces, element access, len/regexp/in) checked for panics only.",
+            "wild-nopanic: untyped operator soups over the property's alphabet (literals, nil, field refs to nil pointers/slices/maps/interfaces, element access, len/regexp/in) checked for panics only. wild-relations unit: two operands of any kind (nil pointers, NaN from division by zero, strings against numbers, slices, booleans) and the implications between the verdicts of >=, >, <=, <, ==, != that the documented operator names mean.",
     "assumptions": [
         "division or remainder by zero (or a divisor truncating to zero, or operands beyond 2^62 for %) is classified undefined-arith: only 'no panic' and 'all three printings agree' are required there",
         "only well-typed expressions are compared with the evaluator; registered functions other than len/regexp/in are outside the statement",
@@ -335,7 +335,7 @@ CHECKS["C08"] = {
     "level": "exploration",
     "rule": "A temp tree (files of every length 0..12, files of MaxSmallFileSize-1/0/+1 bytes and 70000 bytes, directories with and without index file, a canary outside the root) served by the real engine through StaticFS (+PathRewrite; byte ranges on/off; Compress; GenerateIndexPages; IndexNames), Static, StaticFile, ctx.File and ctx.FileFromFS. "
             "range-grid: every file length 0..6 (thorough 0..12) x 5 routes x every Range form a-b / a- / -n for a,b,n in 0..N+1 plus 20 malformed, reversed, wrong-unit and overflowing forms x {GET, HEAD, GET again}; random: keep-alive connections of 1..5 requests over paths incl. traversal attempts, directories, missing files, random ranges around the file length, If-Modified-Since older/equal/newer/garbage, Accept-Encoding gzip, repeated requests (file cache). "
-            "One evaluation = one request judged; non-trivial = carries a Range header or is a repeated (cached) request.",
+            "One evaluation = one request judged; non-trivial = carries a Range header or is a repeated (cached) request. cache-expiry unit: 40 ms file cache behind a middleware that holds the response 170 ms after the file handler returned (small, big, compressed files, ranges): the announced bytes must still be delivered. replaced-file unit: a file is replaced (same second, +500 ms mtime) after its gzip variant was cached; after expiry every request gets the new content (polled, no timing verdict).",
     "assumptions": [
         "single ranges only; ignoring Range (200 whole file) is always acceptable; unsatisfiable/invalid ranges may get 416 or 200 but never 206",
         "a byte position beyond int64 may be clamped (RFC) or refused with 416 (hertz)",
@@ -359,7 +359,7 @@ CHECKS["C09"] = {
     "level": "exploration",
     "rule": "context: a random program of 1..12 calls over the exported method sets of RequestContext, Request, RequestHeader, Response, ResponseHeader, URI, query/post Args and both Trailers (every method whose parameters can be synthesised from string/[]byte/int/bool/time/io.Reader/error/interface/map/CookieSameSite/*Cookie/context, ~370 methods enumerated by reflection, minus a deny-list of methods that end the experiment) plus direct assignments to exported fields, "
             "run while serving one of 4 dirty requests (form POST, HEAD, chunked multipart PUT with trailer, JSON POST with Expect) and ending in return / Abort / AbortWithStatus / panic caught by the recovery middleware / SetConnectionClose; then one of 3 probe requests (matched route, unmatched route with form body, multipart) on the same keep-alive connection or on a new connection (context from the pool). "
-            "pooled-objects: Acquire -> random calls -> Release -> Acquire for Request, Response, URI, Cookie. Non-trivial = the program changed the dump during the dirty request AND the probe got the pointer-identical context/object; distinct by FNV-64 of the case. concurrent: 8 goroutines interleave dirty and probe connections on one engine (race detector in the thorough tier).",
+            "pooled-objects: Acquire -> random calls -> Release -> Acquire for Request, Response, URI, Cookie. Non-trivial = the program changed the dump during the dirty request AND the probe got the pointer-identical context/object; distinct by FNV-64 of the case. concurrent: 8 goroutines interleave dirty and probe connections on one engine (race detector in the thorough tier). Three server configurations are drawn (default; default Date/Content-Type disabled; header-name normalising off + raw path options) with fresh baselines per configuration; probe requests include value-less keys and empty values in every position of query, form, cookie and header.",
     "assumptions": [
         "the dump is every exported zero-argument getter of those objects (enumerated by reflection, canonically rendered, Date masked) plus VisitAll enumerations, Params, Keys, Errors, exported flags, cookie/form/query/multipart lookups, and the probe's serialised response",
         "connection-scoped state documented to survive (conn, TLS flag, trace info object, binder/validator, client-IP and form-value functions, HTMLRender, maxKeepBodySize) is excluded; slice capacities are not observable and not compared",
@@ -402,14 +402,14 @@ CHECKS["C10"] = {
     "level": "exploration",
     "rule": "A history plan drawn up front by rapid: MaxConns 1..4; MaxConnWaitTimeout in {0, 30 ms, 300 ms}; 1..6 goroutines x 1..6 calls of the real HostClient.Do; per call: method (GET/PUT retryable, POST not), 40 ms read timeout or none, context live / cancelled before / cancelled 5 ms into the call, a delay of 0..3 ms before the call, and the fault of the exchange that serves it "
             "{ok, ok + Connection: close, ok then silent close, close before first byte, close mid-header, close mid-body, stall 130 ms (past the read timeout), 100-continue then ok}; per dial {ok, error, 15 ms slow}. Connections are in-memory pipes (with TCP-like write semantics) served by scripted peer goroutines that parse requests with the strict reader and answer by request id. "
-            "Non-trivial = >= 2 goroutines contending for fewer connections than goroutines with >= 1 fault or cancellation; distinct by FNV-64 of the plan.",
+            "Non-trivial = >= 2 goroutines contending for fewer connections than goroutines with >= 1 fault or cancellation; distinct by FNV-64 of the plan. Further dimensions: whole-request timeouts (300 ms) and the fault \"silent 180 ms then close, stall when the request is repeated\"; calls through HostClient.GetTimeout (the exchange outlives the caller); MaxConnDuration 1/4 ms (the client announces Connection: close); a rapid-drawn table of yields/sleeps applied at the pool lock boundaries through hook H2. A scheduling heartbeat gates every wall-clock verdict.",
     "assumptions": [
         "schedules are sampled by real-time perturbation, not enumerated; rapid cannot shrink a schedule-dependent failure, the full history is printed instead",
         "timeouts are asserted as 'returns within T + 2 s' (pure scheduling slack); conservation is polled for up to 3 s before it counts as a leak",
         "stale waiter-queue entries are swept by one final clean request before the queue is required to be empty (the queue is cleaned lazily by design)",
         "a call made with an already cancelled context may fail or succeed",
     ],
-    "level_text": "Random concurrent histories against history invariants: every successful call got the response to its own request id; a peer never receives a second request before answering the first, nor any request on a connection that carried Connection: close or a client-side timeout; open connections <= MaxConns at every dial and in ConnPoolState; a POST is received at most once; calls with a read timeout return; at quiescence PendingRequests()==0, counted connections == pooled, dialed == closed + pooled, no waiter queued.",
+    "level_text": "Random concurrent histories against history invariants: every successful call got the response to its own request id; a peer never receives a second request before answering the first, nor any request on a connection that carried Connection: close or a client-side timeout; ConnPoolState().TotalConnNum <= MaxConns at every dial (the connection being dialed is already counted) and in a 200 us sampler; a connection on which the client announced Connection: close is closed by the client; a call with a request timeout returns within it (+2 s, or +100 ms while the scheduling heartbeat is below 20 ms); a POST is received at most once; calls with a read timeout return; at quiescence PendingRequests()==0, counted connections == pooled, dialed == closed + pooled, no waiter queued.",
     "level_note": "Sampled schedules on a 16-core machine (thorough tier also under the race detector); the peer and pipe model are part of the trusted base.",
     "technique": "property-based testing of concurrent histories (rapid-generated plans, fault injection by a scripted peer) against history invariants",
     "nontrivial_floor": 20,
@@ -425,7 +425,7 @@ CHECKS["C18"] = {
     "level": "exploration",
     "rule": "A scenario is a real server (server.New, standard or netpoll transport) on a unix-domain socket or a loopback TCP port with ExitWaitTimeout in {150 ms, 1.5 s}, 1..6 client connections each in a state {busy: request sent and its handler parked on a harness channel; idle keep-alive after a completed request; mid-request: partial headers sent; just connected}, "
             "busy responses of 1 B..256 KiB, handler release point {before Shutdown is called, right after a shutdown hook fired, 60 ms after the hook fired, after the wait}, hooks {none, fast, 50 ms + fast, longer than the wait}; then a dial attempt, a second Shutdown and a Shutdown of an engine that never ran. "
-            "Non-trivial = at least one busy connection whose handler returns after shutdown began together with another connection; distinct by FNV-64 of the plan.",
+            "Non-trivial = at least one busy connection whose handler returns after shutdown began together with another connection; distinct by FNV-64 of the plan. Further dimensions: SenseClientDisconnection on the standard transport with clients that go away while their handler runs; hooks that take 60 % of the wait or overrun it; a slow OnConnect callback with a last connection that is inside the callback (request sent) when Shutdown is called, sometimes as the only connection.",
     "assumptions": [
         "'already received' is counted for requests whose handler was entered before Shutdown was called, and for a request sent on a connection that the server had accepted (its OnConnect callback had been entered) before Shutdown was called; connections still in the kernel backlog and the keep-alive race are not counted",
         "liveness is checked as bounded response: Shutdown returns within ExitWaitTimeout + 2 s; hooks are started; handlers released after the wait expired are not asserted on",
